@@ -184,7 +184,7 @@ def run(ctx, rep, model=True):
     template = build_template(ctx)
     before = {n: audit.tree_hash(os.path.join(template, n)) for n in INPUTS}
     forms = ["rel", "abs", "slash"] + ([] if ctx.quick else ["abs-slash"])
-    fault_budget = 10 if ctx.quick else 10 ** 6
+    fault_budget = 16 if ctx.quick else 10 ** 6
     for tool, fn, inp_name, out_kinds in invocations():
         for out_kind in out_kinds:
             for form in forms:
